@@ -53,14 +53,14 @@ structure St where
   deriving Repr
 
 /-- `x_r_idx = [idx for idx, x in enumerate(counts) if x < cap][-1]`, or `len - 1` without cap.
-    `IndexError` when no candidate is below the cap (or the list is empty: index -1 is then used
-    later and raises IndexError too). -/
+    `ValueError` when no candidate is below the cap; `IndexError` for an empty list without cap
+    (index -1 / 0 is then used and raises). -/
 def upperIndex (counts : List Nat) : Option Nat → Py Nat
   | none => if counts.length = 0 then .error .indexError else .ok (counts.length - 1)
   | some c =>
       match ((List.range counts.length).filter (fun i => decide (counts.getD i 0 < c))).getLast? with
       | some i => .ok i
-      | none => .error .indexError
+      | none => .error .valueError        -- since the F17 repair: `raise ValueError("Search failed: no candidate …")`
 
 /-- `ceil((x_l_idx + x_r_idx) / 2)`. -/
 def mid (s : St) : Nat := (s.l + s.r + 1) / 2
@@ -160,7 +160,7 @@ def finish (counts : List Nat) (E : Nat → Rat → Rat) (cfg : Cfg) (i : Nat) (
 /-- `Bisection1D.search()`.  Returns the outcome and the full evaluation trace. -/
 def bisect1D (counts : List Nat) (E : Nat → Rat → Rat) (cfg : Cfg) : Outcome × List (Nat × Rat) :=
   match upperIndex counts cfg.cap with
-  | .error e => (.pyError e, [])
+  | .error e => (if e = .valueError then .valueError else .pyError e, [])
   | .ok xr =>
     match pre E cfg xr with
     | .inl o => (o, tr0 cfg xr)
